@@ -126,6 +126,8 @@ class Gen:
             return ["chk", self.site()]
         if k < 52:
             return ["setg"]
+        if k < 55:
+            return ["lam", self.id()]
         if k < 60:
             return ["evg", self.id()]
         if k < 62 and ctx.get("clocals"):
@@ -227,7 +229,7 @@ class Gen:
                 return self.simple(ctx)
             if r.chance(0.3):
                 return ["failop", self.id(), r.choice([1, 2, 3, 4, 5, 6, 7, 8, 11, 12])]
-            return ["throw", self.id(), r.choice(["s", "s", "n", "i", "t", "e"])]
+            return ["throw", self.id(), r.choice(["s", "s", "n", "i", "t", "e", "z"])]
         if k < 90:
             if ctx["fin_level"] > 0 and not self.f.get("finally_local") and not self.k.get("finally_locals"):
                 return self.simple(ctx)
@@ -379,7 +381,7 @@ def render_all(ir):
         elif k == "chk":
             emit('fail(print(("chk", "%s")));' % st[1], ind)
         elif k == "throw":
-            v = {"s": '"t%d"' % st[1], "n": "%d" % st[1], "i": "Exc.new()", "e": "SubErr.new()", "t": '("tt", %d)' % st[1]}[st[2]]
+            v = {"s": '"t%d"' % st[1], "n": "%d" % st[1], "i": "Exc.new()", "e": "SubErr.new()", "z": "nil", "t": '("tt", %d)' % st[1]}[st[2]]
             emit("throw %s;" % v, ind)
         elif k == "failop":
             emit("{ %s }" % OPS[st[2]][0], ind)
@@ -438,6 +440,9 @@ def render_all(ir):
             emit(" ".join(["nil;"] * st[1]), ind)
         elif k == "pad1":
             emit("!nil;", ind)      # three bytes: changes the parity of the padding
+        elif k == "lam":
+            # a lambda expression compiled in the middle of whatever block this is (a nested function for the compiler)
+            emit('print(("ev", %d, (|q| { return q + 1; })(%d)));' % (st[1], st[1]), ind)
         elif k == "setg":
             emit("gv = gv + 1;", ind)
         elif k == "evg":
@@ -688,6 +693,8 @@ def model(ir, tape, faults):
                 raise Thrown(cls("Num"), num(st[1]), "%d" % st[1])
             if vk == "i":
                 raise Thrown(cls("Exc"), inst("Exc"), "Unhandled Exc: <Exc instance")
+            if vk == "z":
+                raise Thrown(cls("Nil"), None, "Unhandled exception: nil")      # any value can be thrown, nil too
             if vk == "e":
                 # an instance of a program-declared subclass of a built-in error class: reported under its own class
                 raise Thrown(cls("SubErr"), inst("SubErr"), "Unhandled SubErr: <SubErr instance")
@@ -762,6 +769,8 @@ def model(ir, tape, faults):
             ev.append([num(st[1]), num(env["locals"][st[2]][0])])
         elif k in ("pad", "pad1"):
             pass
+        elif k == "lam":
+            ev.append([num(st[1]), num(st[1] + 1)])
         elif k == "setg":
             G[env["mod"]][0] += 1
         elif k == "evg":
